@@ -249,6 +249,8 @@ class AM:
         if self.trail and how in ('self', 'equal_array'):
             # an Array with trailing bits on the right-hand side: only its whole items count
             vals = vals[:len(self.items)]
+        # items are assigned by value: what is stored is the encoding of the decoded value (e5m2 infinities saturate, duplicate codes collapse)
+        vals = [canonical(self.dt, x) for x in vals]
         r = attempt(self.a.__setitem__, slice(a, b, c), value)
         if c == 0:
             require(is_raised(r, ValueError), 'slice step 0 must raise ValueError', got=r)
